@@ -40,6 +40,8 @@ def blocked_input(nbytes, extra_fill_block=False):
 
 BIG = blocked_input(5 * 1012 - 30)
 BIG_PAYLOAD = refvbs.payload_of(BIG)
+OTHER = refvbs.block(bytes((i * 7 + 3) % 251 for i in range(9 * 1012 + 17)))
+OTHER_PAYLOAD = refvbs.payload_of(OTHER)
 
 
 def do_reads(blocked, sizes, source=None):
@@ -47,11 +49,23 @@ def do_reads(blocked, sizes, source=None):
     payload = refvbs.payload_of(blocked)
     u = mciipm.Unblock1014(source if source is not None else io.BytesIO(blocked))
     cur = 0
+    # a second unblocker over other data is read from in between (two files open at once): each keeps its own place
+    other = mciipm.Unblock1014(io.BytesIO(OTHER)) if len(sizes) % 2 else None
+    ocur = 0
     for i, n in enumerate(sizes):
         try:
             got = u.read(n) if n is not None else u.read()
         except Exception as ex:
             return exc_sig('read-raises', ex), f'reads {sizes[:i + 1]} on {len(blocked)}-byte input raised {ex!r}'
+        if other is not None:
+            k = 7 + 331 * i
+            try:
+                og = other.read(k)
+            except Exception as ex:
+                return exc_sig('read-raises:second-instance', ex), f'a second unblocker read in between raised {ex!r}'
+            if og != OTHER_PAYLOAD[ocur:ocur + k]:
+                return 'second-instance-disturbed', f'a second unblocker, read from in between reads {sizes[:i + 1]}, returned wrong data at offset {ocur}'
+            ocur += len(og)
         if n is None:
             want = payload[cur:]
             cur = len(payload)
